@@ -125,6 +125,51 @@ def leaf_rules(repo, res):
                 res.check("PB-LEAF", "%s [%s]: the numbers of the message, unchanged" % (qn, label), bad is None, cls.mod, fn, "%s [%s] %s" % (qn, label, bad), "a number is changed on reading (normalised, rounded, wrapped): what is read is not what was written", qualname=qn)
 
 
+def writer_leaf_rules(repo, res):
+    """PB-LEAF on the writer side: IntegerExactOrIntervalMessage / FloatExactOrIntervalMessage.create_message, evaluated
+    on message models: a number goes into `exact` as it is; an interval goes into `interval` with its own start and
+    end — also an interval whose ends coincide (it stays an interval: the reader builds the kind the message holds)."""
+    from ..strdom import ClassRef, Ev, Lenient, Obj, PyFunc, Sym, Undecided, _Raise, show
+
+    WP_ = "commonroad/common/writer/file_writer_protobuf.py"
+    U_ = "commonroad/common/util.py"
+    ivc = repo.cls(U_, "Interval")
+    for cname, kinds in (("IntegerExactOrIntervalMessage", ("int",)), ("FloatExactOrIntervalMessage", ("float", "int"))):
+        cls = repo.cls(WP_, cname)
+        fn = cls.methods.get("create_message")
+        if fn is None:
+            raise AnalysisError("%s.create_message missing" % cname)
+        qn = "%s.create_message" % cname
+        cases = [("a number (%s)" % k, Sym("value", k), None) for k in kinds] + [("an interval", "iv", False), ("an interval whose ends coincide", "iv", True)]
+        for label, value, same_ends in cases:
+            st, en = Sym("start", kinds[0]), Sym("end", kinds[0])
+            if value == "iv":
+                value = Obj(ivc, {"_start": st, "_end": en}, label="interval")
+            ev = Ev(repo)
+            ev.pure_modules = {"np", "numpy", "math"}
+            ev.oracle = lambda kind, a, b, st=st, en=en, same_ends=same_ends: ((same_ends if kind == "Eq" else not same_ends) if kind in ("Eq", "NotEq") and {id(a), id(b)} == {id(st), id(en)} else (True if kind in ("LtE", "GtE") and {id(a), id(b)} == {id(st), id(en)} else (False if same_ends else (id(a) == id(st))) if kind in ("Lt", "Gt") and {id(a), id(b)} == {id(st), id(en)} else None))
+            bad = None
+            try:
+                r = ev.call_fn(ev.bind(fn, cls, None, via_class=ClassRef(cls)), [value], {}, fn)
+                if not isinstance(r, Lenient):
+                    bad = "gives %s" % show(r)
+                else:
+                    copies = [a_[0] for what, a_, _k in r.root.log if what.endswith("interval.CopyFrom") and a_]
+                    if isinstance(value, Obj):
+                        src = copies[0] if len(copies) == 1 else None
+                        if "exact" in r.fields and not isinstance(r.fields["exact"], Lenient):
+                            bad = "writes the interval as the exact value %s" % show(r.fields["exact"])
+                        elif not (isinstance(src, Obj) and src.fields.get("start") is st and src.fields.get("end") is en):
+                            bad = "fills `interval` from %s" % (show(src) if src is not None else "nothing")
+                    elif r.fields.get("exact") is not value or copies:
+                        bad = "writes exact = %s%s" % (show(r.fields.get("exact")) if "exact" in r.fields else "nothing", " and an interval" if copies else "")
+            except _Raise as x:
+                bad = "raises %s" % x.what
+            except Undecided as x:
+                raise AnalysisError("%s [%s]: %s" % (qn, label, x))
+            res.check("PB-LEAF", "%s [%s]: the value goes into the member of its kind, unchanged" % (qn, label), bad is None, cls.mod, fn, "%s [%s] %s" % (qn, label, bad), "an interval-valued attribute is not written as the interval it is (or a number not as that number): it reads back as another kind of value", qualname=qn)
+
+
 def mutable_default_rule(repo, res, rels, RULE):
     """no function of the given modules has a mutable default argument that it changes or hands out: such a default is
     one object shared by all calls, so what one call collects is still there in the next (the second traffic sign read
@@ -184,6 +229,7 @@ def run(repo, res, tier):
     res.rule("PB-LEAF", "leaf factories hand on the numbers of the message unchanged", 12)
     res.rule("PB-STATE", "no mutable default argument is changed or handed out in reader / writer", 1)
     leaf_rules(repo, res)
+    writer_leaf_rules(repo, res)
     mutable_default_rule(repo, res, ["commonroad/common/reader/file_reader_protobuf.py", "commonroad/common/writer/file_writer_protobuf.py"], "PB-STATE")
     res.rule("PB-FIELD", "fields set / read exist in the message definition", 150)
     res.rule("PB-COVER", "every field of a written message is set by its builder", 80)
